@@ -304,5 +304,12 @@ def on_abnormal(case, kind, info):
     if kind.startswith("crash:"):
         if "KILL" in kind:
             return K.result("violated", key="killed/%s" % fam, what="worker was killed (out of memory?) on family %s" % fam)
-        return K.result("violated", key="interpreter-died/%s" % kind, what="worker died with %s on family %s" % (kind, fam))
+        desc = ""
+        if fam == "props":
+            desc = "/coder-%s-props-%s" % (case.get("id"), case.get("props"))
+        elif fam == "struct":
+            desc = "/layout%s" % case.get("layout")
+        elif case.get("arc"):
+            desc = "/" + case["arc"]["label"]
+        return K.result("violated", key="interpreter-died/%s%s" % (kind, desc), what="worker died with %s on family %s %s (%s)" % (kind, fam, desc, (info or "").strip()[-120:]))
     return None
